@@ -502,7 +502,12 @@ fn main() {
         "enum:filter-print-parse" => {
             let texts = ["a", "not a", "a and b", "a or b and c", "(a or b) and c", "a->b->c", "a->b and c", "a == 1", "a != -1.5", "a < 10000000000000000000",
                 "a >= 1e300", "a == 1e-7", "a > 9223372036854775808kWh", "a == \"s\"", "a == \"q\\\"t\\\\b$x\"", "a == @r", "a == ^s", "a == `u`", "a == true",
-                "a == 2021-06-01", "a == 12:30:00", "a *== @r", "a <= 5m", "x and (y or (z and not w))"];
+                "a == 2021-06-01", "a == 12:30:00", "a *== @r", "a <= 5m", "x and (y or (z and not w))",
+                // literals of every kind the filter syntax admits: refs with display names, timestamps with zones, fractional times, escapes
+                "a == @r \"Dis\" and b", "equipRef == @p:demo:r:1 \"Main AHU\" and point", "(siteRef == @s \"Site 1\") and equip", "a *== @p:demo:r:1 \"Main AHU\"",
+                "a == 2021-06-01T12:00:00-04:00 New_York", "a == 2021-06-01T12:00:00Z", "a == 2021-06-01T12:00:00.5+05:30 Kolkata and b", "a == 12:30:00.5", "a == false",
+                "a == \"\\u00e9\\n\\t\"", "a == `http://x/y?z=1&w=2`", "a == 50%", "a != ^s:t-u", "^sym", "^sym and a", "hvac?", "hvac? ^air", "hvac? ^air @r", "inputs? @r \"R 1\"", "inputs? @r and b",
+                "a->b == 1 or c->d->e != \"x\"", "not a->b", "not a and not b or not c", "((a))", "(a) or (b)"];
             for t in texts {
                 let f = match Filter::try_from(t) { Ok(f) => f, Err(e) => { println!("RESULT enum:filter-print-parse {t:?} does not parse: {e}"); std::process::exit(3); } };
                 let printed = f.to_string();
@@ -510,6 +515,23 @@ fn main() {
                 if !matches!(&again, Ok(g) if *g == f) {
                     println!("RESULT enum:filter-print-parse {t:?} prints as {printed:?}, which parses to {:?}", again.map(|g| g.to_string()));
                     std::process::exit(3);
+                }
+            }
+            // the tree the grammar prescribes: `and` binds tighter than `or`, parentheses group, a path ends at the first token that is not ->
+            {
+                use libhaystack::filter::nodes::Term;
+                let shape = |t: &str| -> String {
+                    fn or_s(o: &libhaystack::filter::nodes::Or) -> String { format!("or[{}]", o.ands.iter().map(|a| format!("and[{}]", a.terms.iter().map(term_s).collect::<Vec<_>>().join(","))).collect::<Vec<_>>().join(",")) }
+                    fn term_s(t: &Term) -> String { match t {
+                        Term::Parens(p) => format!("({})", or_s(&p.or)), Term::Has(h) => format!("has:{}", h.path.len()), Term::Missing(m) => format!("not:{}", m.path.len()),
+                        Term::Cmp(c) => format!("cmp:{}", c.path.len()), Term::IsA(_) => "isa".into(), Term::WildcardEq(_) => "weq".into(), Term::Relation(_) => "rel".into() } }
+                    match Filter::try_from(t) { Ok(f) => or_s(&f.or), Err(e) => format!("error {e}") }
+                };
+                for (t, want) in [("a or b and c", "or[and[has:1],and[has:1,has:1]]"), ("a and b or c", "or[and[has:1,has:1],and[has:1]]"),
+                                  ("(a or b) and c", "or[and[(or[and[has:1],and[has:1]]),has:1]]"), ("a->b->c and d", "or[and[has:3,has:1]]"),
+                                  ("not a->b or c == 1", "or[and[not:2],and[cmp:1]]"), ("a and (b or c and d)", "or[and[has:1,(or[and[has:1],and[has:1,has:1]])]]")] {
+                    let got = shape(t);
+                    if got != want { println!("RESULT enum:filter-print-parse {t:?} parses to the shape {got}, the grammar prescribes {want}"); std::process::exit(3); }
                 }
             }
             // nesting depth is a budget per nesting level, not per filter: many groups one after the other must parse
